@@ -7,7 +7,7 @@ TOL = (1e-6, 1e-9)
 BOUNDS = {
     "quick": "every element kind (Point, Matrix, Color, Length, Move/Line/Close/Quad/Cubic/Arc, Path, Rect, Circle, Ellipse, SimpleLine, Polyline, Polygon, Group with nested "
              "group and shapes, Text, Image) x every derivation applicable to it (copy, *M, abs, Path(x), Path(subpath), group copy, ~, +, segment + segment, segment + string) x every single public mutation "
-             "of either side, plus all ordered pairs of mutations for Path, Polyline, Rect and Group; mutations inject fresh symbolic values",
+             "of either side, plus all ordered pairs of mutations for Path, Polyline, Rect and Group; mutations inject fresh symbolic values; shapes and matrices whose unit lengths are still Length objects (RectLen, CircleLen, LineLen, MatrixLen) with in-place length mutations; derivations with an operand that leaves nothing to do (x * Matrix(), x * 'scale(1) translate(0,0)', abs(abs(x)))",
     "thorough": "all ordered pairs for every kind and all triples for Path and Group",
 }
 OUTSIDE = ["histories longer than the bound", "colour channel mutations use concrete distinct values (bit operations on symbolic ints are not encoded)", "Image pixel data (PIL absent)"]
@@ -26,7 +26,7 @@ def snap(S, o, depth=0):
     if isinstance(o, S.Point):
         return ("P", o.x, o.y)
     if isinstance(o, S.Matrix):
-        return ("M", o.a, o.b, o.c, o.d, o.e, o.f)
+        return ("M", o.a, o.b, o.c, o.d, snap(S, o.e, depth + 1), snap(S, o.f, depth + 1))
     if isinstance(o, S.Color):
         return ("C", o.value)
     if isinstance(o, S.Length):
@@ -122,6 +122,15 @@ def make(ctx, kind, x):
         return p
     if kind == "Rect":
         return S.Rect(x(), x(), x(1, 100), x(1, 100), transform=x.matrix(S), **paint)
+    # shapes and matrices whose lengths carry units and have not been rendered yet: the attributes are Length objects
+    if kind == "RectLen":
+        return S.Rect(x="%sin" % x(1, 9), y="%smm" % x(1, 9), width="%scm" % x(1, 9), height="%spt" % x(1, 9), rx="%smm" % x(1, 2), **paint)
+    if kind == "CircleLen":
+        return S.Circle(cx="%sin" % x(1, 9), cy="%smm" % x(1, 9), r="%scm" % x(1, 9), **paint)
+    if kind == "LineLen":
+        return S.SimpleLine(x1="%sin" % x(1, 9), y1="%smm" % x(1, 9), x2="%scm" % x(1, 9), y2="%spt" % x(1, 9), **paint)
+    if kind == "MatrixLen":
+        return S.Matrix("translate(%sin, %smm)" % (x(1, 9), x(1, 9)))
     if kind == "Circle":
         return S.Circle(x(), x(), x(1, 100), transform=x.matrix(S), **paint)
     if kind == "Ellipse":
@@ -148,7 +157,8 @@ def make(ctx, kind, x):
 
 SEGS = ["Move", "Line", "Close", "Quad", "Cubic", "Arc"]
 SHAPES = ["Path", "Path2", "Rect", "Circle", "Ellipse", "SimpleLine", "Polyline", "Polygon"]
-KINDS = ["Point", "Matrix", "Color", "Length"] + SEGS + SHAPES + ["Group", "Text", "Image"]
+LENKINDS = ["RectLen", "CircleLen", "LineLen", "MatrixLen"]
+KINDS = ["Point", "Matrix", "Color", "Length"] + SEGS + SHAPES + ["Group", "Text", "Image"] + LENKINDS
 
 
 def derivations(kind):
@@ -174,6 +184,10 @@ def derivations(kind):
         d += ["mul_id", "mul_idstr"]
     if kind in SHAPES + ["Group", "Text", "Image"]:
         d += ["abs_abs"]
+    if kind in ("RectLen", "CircleLen", "LineLen"):
+        d += ["mul", "mul_id"]
+    if kind == "MatrixLen":
+        d += ["Matrix"]
     return d
 
 
@@ -195,6 +209,8 @@ def derive(ctx, kind, how, obj, x, extras=None, before=None):
         return obj * "scale(2) translate(3,4)"
     if how == "mul_id":
         return obj * S.Matrix()
+    if how == "Matrix":
+        return S.Matrix(obj)
     if how == "mul_idstr":
         return obj * "scale(1) translate(0,0)"
     if how == "abs_abs":
@@ -261,6 +277,8 @@ def mutators(S, o):
         m += ["pt.x=", "pt*=M", "pt+="]
     elif isinstance(o, S.Matrix):
         m += ["m.a=", "m*=M", "m.pre_scale", "m.post_rotate", "m.inverse"]
+        if isinstance(o.e, S.Length):
+            m += ["len*=", "len.amount="]
     elif isinstance(o, S.Color):
         m += ["c.red=", "c.opacity=", "c.blend"]
     elif isinstance(o, S.Length):
@@ -286,6 +304,8 @@ def mutators(S, o):
             m += ["rect.x="]
         if isinstance(o, S._RoundShape):
             m += ["round.cx="]
+        if any(isinstance(getattr(o, a, None), S.Length) for a in ("x", "cx", "x1")):
+            m += ["len*=", "len.amount="]
         if isinstance(o, S.Group):
             m += ["g.append", "g[0]*=M", "g[0].attr=", "del g[0]", "g[1][0].points[0].x=", "g[1][1][1].end.y="]
     return m
@@ -390,6 +410,12 @@ def mutate(ctx, name, o, y):
         o.rx = y(0, 1)
     elif name == "round.cx=":
         o.cx = y()
+    elif name in ("len*=", "len.amount="):
+        attr = [a for a in ("x", "cx", "x1", "e") if isinstance(getattr(o, a, None), S.Length)][0]
+        if name == "len*=":
+            setattr(o, attr, getattr(o, attr).__imul__(y(2, 5)))      # o.x *= k
+        else:
+            getattr(o, attr).amount = y(20, 50)
     elif name == "g.append":
         o.append(S.Rect(y(), y(), 1, 1))
     elif name == "g[0]*=M":
@@ -501,6 +527,7 @@ MUT_BY_CLASS = {
     "Group": ["*=M", "transform.pre_translate", "reify", "values[]=", "g.append", "g[0]*=M", "g[0].attr=", "del g[0]", "g[1][0].points[0].x=", "g[1][1][1].end.y="],
     "Text": ["*=M", "transform.pre_translate", "reify", "values[]=", "fill.red=", "stroke.opacity=", "stroke_width="],
     "Image": ["*=M", "transform.pre_translate", "reify", "values[]="],
+    "RectLen": ["len*=", "len.amount=", "fill.red="], "CircleLen": ["len*=", "len.amount="], "LineLen": ["len*=", "len.amount="], "MatrixLen": ["len*=", "len.amount="],
 }
 
 
